@@ -75,6 +75,10 @@ struct In {
     m: U,                  // public odd modulus
     s: u32,                // public shift amount / bit count
     ba: BoxedUint, bb: BoxedUint, bm: BoxedUint, // boxed twins (precision 256)
+    wa: U1024, wb: U1024,  // wide operands built from a and b (halves ordered by the secrets: Karatsuba sign cases)
+    bwa: BoxedUint, bwb: BoxedUint, // 2048-bit boxed operands, and a 33- and 34-limb pair
+    b33: BoxedUint, b34: BoxedUint,
+    m1: BoxedUint,         // public one-limb modulus with its top bit clear (R/4 < m < R/2)
 }
 static mut INP: Option<In> = None;
 static mut SINK: u64 = 0;
@@ -84,8 +88,12 @@ fn foldb(x: &BoxedUint) -> u64 { x.as_words().iter().fold(0u64, |h, w| h.rotate_
 fn foldc(c: Choice) -> u64 { c.unwrap_u8() as u64 }
 use crypto_bigint::subtle::Choice;
 
-struct Op { name: &'static str, secret_a: bool, secret_b: bool, f: fn(&In) -> u64 }
-macro_rules! op { ($n:literal, $sa:expr, $sb:expr, |$i:ident| $body:expr) => { Op { name: $n, secret_a: $sa, secret_b: $sb, f: { fn g($i: &In) -> u64 { $body } g } } }; }
+struct Op { name: &'static str, secret_a: bool, secret_b: bool, more: usize, f: fn(&In) -> u64 }
+macro_rules! op {
+    ($n:literal, $sa:expr, $sb:expr, |$i:ident| $body:expr) => { Op { name: $n, secret_a: $sa, secret_b: $sb, more: 0, f: { fn g($i: &In) -> u64 { $body } g } } };
+    ($n:literal, $sa:expr, $sb:expr, more $m:expr, |$i:ident| $body:expr) => { Op { name: $n, secret_a: $sa, secret_b: $sb, more: $m, f: { fn g($i: &In) -> u64 { $body } g } } };
+}
+fn foldw<const N: usize>(x: &Uint<N>) -> u64 { x.as_words().iter().fold(0u64, |h, w| h.rotate_left(9) ^ *w) }
 
 fn nzm(i: &In) -> NonZero<U> { NonZero::new(i.m).unwrap() }
 fn oddm(i: &In) -> Odd<U> { Odd::new(i.m).unwrap() }
@@ -226,6 +234,19 @@ fn registry() -> Vec<Op> {
         op!("boxedmonty.mul", true, true, |i| { let p = BoxedMontyParams::new_vartime(oddbm(i)); foldb((BoxedMontyForm::new(i.ba.clone(), p.clone()) * BoxedMontyForm::new(i.bb.clone(), p)).as_montgomery()) }),
         op!("boxedmonty.add_sub_neg", true, true, |i| { let p = BoxedMontyParams::new_vartime(oddbm(i)); let (x, y) = (BoxedMontyForm::new(i.ba.clone(), p.clone()), BoxedMontyForm::new(i.bb.clone(), p)); foldb((-(&x + &y) - &y).as_montgomery()) }),
         op!("boxedmonty.pow(secret exponent)", true, true, |i| { let p = BoxedMontyParams::new_vartime(oddbm(i)); foldb(BoxedMontyForm::new(i.ba.clone(), p).pow(&i.bb).as_montgomery()) }),
+        // --- wide operands: every Karatsuba level of the fixed dispatch, boxed Karatsuba with trailing limbs
+        op!("uint1024.split_mul", true, true, |i| { let (l, h) = i.wa.split_mul(&i.wb); foldw(&l) ^ foldw(&h) }),
+        op!("uint1024.wrapping_mul", true, true, |i| foldw(&i.wa.wrapping_mul(&i.wb))),
+        op!("uint1024.square_wide", true, true, |i| { let (l, h) = i.wa.square_wide(); foldw(&l) ^ foldw(&h) }),
+        op!("uint2048.split_mul", true, true, |i| { let x: U2048 = i.wa.concat(&i.wb); let y: U2048 = i.wb.concat(&i.wa); let (l, h) = x.split_mul(&y); foldw(&l) ^ foldw(&h) }),
+        op!("uint4096.square_wide", true, true, |i| { let x: U2048 = i.wa.concat(&i.wb); let y: U4096 = x.concat(&i.wb.concat(&i.wa)); let (l, h) = y.square_wide(); foldw(&l) ^ foldw(&h) }),
+        op!("boxed2048.mul", true, true, |i| foldb(&i.bwa.mul(&i.bwb))),
+        op!("boxed2048.square", true, true, |i| foldb(&i.bwa.square())),
+        op!("boxed(33x34).mul", true, true, |i| foldb(&i.b33.mul(&i.b34))),
+        op!("boxed(34x33).mul", true, true, |i| foldb(&i.b34.mul(&i.b33))),
+        // --- one-limb Montgomery exponentiation with a modulus one bit shorter than the precision, many secrets
+        op!("boxedmonty64.pow(secret exponent)", true, true, more 6000, |i| { let p = BoxedMontyParams::new_vartime(Odd::new(i.m1.clone()).unwrap()); let x = BoxedMontyForm::new(BoxedUint::from_words([i.a.as_words()[0]]), p); foldb(x.pow(&BoxedUint::from_words([i.b.as_words()[0]])).as_montgomery()) }),
+        op!("monty64.pow(secret exponent)", true, true, more 2000, |i| { let p = MontyParams::new_vartime(Odd::new(U64::from_u64(i.m1.as_words()[0])).unwrap()); fold(&MontyForm::new(&U64::from_u64(i.a.as_words()[0]), p).pow(&U64::from_u64(i.b.as_words()[0])).as_montgomery().resize()) }),
         op!("boxedmonty.invert", true, true, |i| { let p = BoxedMontyParams::new_vartime(oddbm(i)); let x = BoxedMontyForm::new(i.ba.clone(), p.clone()); { let _ = &p; foldc(x.invert().is_some()) } }),
     ]
 }
@@ -263,7 +284,14 @@ fn run_once(f: fn(&In) -> u64, a: U, b: U, m: U, s: u32) -> (u64, usize) {
     // inputs are built inside the arena so that heap addresses depend only on public sizes
     ARENA_OFF.store(0, Relaxed);
     ARENA_ON.store(true, Relaxed);
-    let inp = In { a, b, m, s, ba: BoxedUint::from_words(a.to_words()), bb: BoxedUint::from_words(b.to_words()), bm: BoxedUint::from_words(m.to_words()) };
+    let (aw, bw) = (a.to_words(), b.to_words());
+    let cat = |parts: [&[u64; 4]; 4]| -> [u64; 16] { let mut o = [0u64; 16]; for (k, p) in parts.iter().enumerate() { o[4 * k..4 * k + 4].copy_from_slice(&p[..]); } o };
+    let (wa, wb) = (cat([&aw, &bw, &bw, &aw]), cat([&bw, &aw, &aw, &aw]));
+    let wide = |x: &[u64; 16], y: &[u64; 16], n: usize| -> BoxedUint { BoxedUint::from_words(x.iter().chain(y.iter()).chain(x.iter()).copied().take(n).collect::<Vec<u64>>()) };
+    let m1w = (m.as_words()[0] >> 1) | (1u64 << 62) | 1;           // public: derived from the public modulus only
+    let inp = In { a, b, m, s, ba: BoxedUint::from_words(aw), bb: BoxedUint::from_words(bw), bm: BoxedUint::from_words(m.to_words()),
+                   wa: U1024::from_words(wa), wb: U1024::from_words(wb), bwa: wide(&wa, &wb, 32), bwb: wide(&wb, &wa, 32), b33: wide(&wa, &wb, 33), b34: wide(&wb, &wa, 34),
+                   m1: BoxedUint::from_words([m1w]) };
     unsafe { INP = Some(inp); DIG = 0xcbf2_9ce4_8422_2325; LEN = 0; }
     ON.store(true, Relaxed);
     let r = f(unsafe { INP.as_ref().unwrap() });
@@ -288,7 +316,7 @@ fn main() {
         if let Some(o) = &only { if !op.name.contains(o.as_str()) { continue; } }
         for (ci, m) in ms.iter().enumerate() {
             let s = [0u32, 1, 64, 77, 255, 256][ci % 6] + (seed as u32 % 3);
-            let secs = secrets(&mut r, m, nsec);
+            let secs = secrets(&mut r, m, nsec + if ci == 0 { op.more } else { 0 });
             // operands that the documentation names as public stay fixed within the class
             let (pa, pb) = secs[(ci * 5 + 1) % secs.len()];
             let cls = format!("{}#{}", op.name, ci);
